@@ -1,0 +1,15 @@
+//go:build verif
+
+package schema
+
+// VerifSetMaxStaticSetMembers sets the static-set splitting threshold and returns the previous value.
+// It exists only under the "verif" build tag, for the verification harness in /verif: it makes both
+// branches of SetStaticSetMembers reachable with few members. n must be at least 3.
+func VerifSetMaxStaticSetMembers(n int) int {
+	if n < 3 {
+		panic("VerifSetMaxStaticSetMembers: n must be >= 3")
+	}
+	old := maxStaticSetMembers
+	maxStaticSetMembers = n
+	return old
+}
